@@ -149,6 +149,17 @@ int main(int argc, char** argv) {
         if (m != "split") { string j = join(got, delim); if (j != s) DIFF("join(split(%s, '%c', %zu), '%c') = %s", show(s).c_str(), delim, mx, delim, show(j).c_str()); }
       }
       return true; });
+  } else if (m == "split_w") {
+    // the std::wstring overload against the same reference (characters widened)
+    ok = sweep(alpha + "b", L, [&](const string& s) {
+      wstring ws(s.begin(), s.end());
+      for (size_t mx : maxes) {
+        vector<wstring> gotw = split(ws, (wchar_t)delim, mx);
+        vector<string> got, want = ref_split(s, delim, mx);
+        for (const auto& w : gotw) got.emplace_back(w.begin(), w.end());
+        if (got != want) DIFF("split(L%s, L'%c', %zu) = %s, reference %s", show(s).c_str(), delim, mx, show(got).c_str(), show(want).c_str());
+      }
+      return true; });
   } else if (m == "join_delim" || m == "join_plain") {
     // all vectors of up to 3 strings, each up to length 2 over {a, delim}
     vector<string> pool; sweep(string("a") + delim, 2, [&](const string& s) { pool.push_back(s); return true; });
